@@ -109,7 +109,7 @@ def _simple_shape(h):
     if h.decorator_list or h.args.vararg or h.args.kwarg or h.args.kwonlyargs or getattr(h.args, "posonlyargs", []):
         return None
     nodes = _own_nodes(h)
-    if any(isinstance(n, (ast.Yield, ast.YieldFrom, ast.Await, ast.Global, ast.Nonlocal)) for n in nodes):
+    if any(isinstance(n, (ast.Yield, ast.YieldFrom, ast.Await, ast.Nonlocal)) for n in nodes):
         return None
     if any(isinstance(n, _SCOPES) for n in nodes):
         return None
@@ -240,7 +240,10 @@ def _tailify(stmts, target):
     out = []
     for i, st in enumerate(stmts):
         if isinstance(st, ast.Return):
-            out.append(ast.Assign(targets=[copy.deepcopy(target)], value=st.value))
+            if not (isinstance(target, ast.Name) and isinstance(st.value, ast.Name) and st.value.id == target.id):
+                out.append(ast.Assign(targets=[copy.deepcopy(target)], value=st.value))
+            elif not out:
+                out.append(ast.Pass())
             return out
         if isinstance(st, ast.If) and _has_return(st):
             rest = stmts[i + 1:]
@@ -392,6 +395,11 @@ class _Inliner:
         q = self.qual.get(id(h), (None, None))[0]
         if q is None or q in self.known:
             return None
+        # module globals the helper rebinds must be declared global in the caller as well
+        hg = {x for n in _own_nodes(h) if isinstance(n, ast.Global) for x in n.names}
+        cg = {x for n in _own_nodes(caller) if isinstance(n, ast.Global) for x in n.names}
+        if not hg <= cg:
+            return None
         # not recursive, does not call the caller
         for n in _own_nodes(h):
             if isinstance(n, ast.Call):
@@ -432,6 +440,7 @@ class _Inliner:
         self.uid += 1
         stored = {n.id for n in _own_nodes(h) if isinstance(n, ast.Name) and isinstance(n.ctx, (ast.Store, ast.Del))}
         stored |= {n.name for n in _own_nodes(h) if isinstance(n, ast.ExceptHandler) and n.name}
+        stored -= {x for n in _own_nodes(h) if isinstance(n, ast.Global) for x in n.names}      # module globals are the same variable in the caller
         caller_names = _names_in(caller)
         pre = []
         sub = {}
@@ -450,8 +459,12 @@ class _Inliner:
                 continue
             if v in caller_names:
                 renames[v] = "%s__%d" % (v, self.uid)
-        body = [s for s in h.body if not (isinstance(s, ast.Expr) and isinstance(s.value, ast.Constant) and isinstance(s.value.value, str))]
+        body = [s for s in h.body if not (isinstance(s, ast.Expr) and isinstance(s.value, ast.Constant) and isinstance(s.value.value, str)) and not isinstance(s, ast.Global)]
         # `x = helper(..)` where the helper returns one of its own locals: that local simply becomes x
+        if isinstance(adopt, str) and shape in ("tail", "search"):
+            rnames = {r_.value.id for s_ in body for r_ in ast.walk(s_) if isinstance(r_, ast.Return) and isinstance(r_.value, ast.Name)}
+            if len(rnames) == 1 and list(rnames)[0] in stored and list(rnames)[0] not in exprs:
+                renames[list(rnames)[0]] = adopt
         if isinstance(adopt, str) and shape == "value" and isinstance(body[-1].value, ast.Name) and body[-1].value.id in stored and body[-1].value.id not in exprs:
             renames[body[-1].value.id] = adopt
         body = [_Subst(sub, renames).visit(copy.deepcopy(s)) for s in body]
@@ -687,7 +700,9 @@ def normalize(tree, modname, reference):
     ref = (reference or {}).get(modname) or {}
     known = set(ref.get("__functions__", []))
     if known:
-        counts["inlined"] = _Inliner(tree, known).run()
+        quals = {q for q, _ in _qualnames(tree).values()}
+        if quals - known:            # only a function the reference does not know can be an extracted helper
+            counts["inlined"] = _Inliner(tree, known).run()
     return counts
 
 
@@ -732,6 +747,8 @@ def inline_new_locals(tree, modname, reference, qualnames_fn):
         if fn.args.kwarg:
             params.add(fn.args.kwarg.arg)
         own = _own_nodes(fn)
+        if not ({n.id for n in own if isinstance(n, ast.Name) and isinstance(n.ctx, ast.Store)} - known - params):
+            continue                # no local the reference does not know
         nested_names = set()
         for n in own:
             if isinstance(n, _SCOPES) or isinstance(n, (ast.ListComp, ast.SetComp, ast.DictComp, ast.GeneratorExp)):
@@ -815,4 +832,108 @@ def inline_new_locals(tree, modname, reference, qualnames_fn):
                 del stores[v]
                 count += 1
                 changed = True
+    return count
+
+
+# ---------------------------------------------------------------- new comprehensions back to loops
+
+def _comp_signature(node, local_names):
+    import copy as _c
+
+    class B(ast.NodeTransformer):
+        def visit_Name(self, n):
+            return ast.copy_location(ast.Name(id="_L", ctx=n.ctx), n) if n.id in local_names else n
+    try:
+        return ast.unparse(B().visit(_c.deepcopy(node)))
+    except Exception:
+        return ast.dump(node)
+
+
+def comprehension_signatures(fn):
+    names = {n.id for n in ast.walk(fn) if isinstance(n, ast.Name) and isinstance(n.ctx, ast.Store)}
+    return sorted(_comp_signature(n, names) for n in ast.walk(fn) if isinstance(n, (ast.ListComp, ast.SetComp, ast.GeneratorExp, ast.DictComp)))
+
+
+def comprehensions_to_loops(tree, modname, reference, qualnames_fn):
+    """`x = [e for t in it if c]` / `{e for ...}` assigned to a plain local, in a function the reference knows without that
+    comprehension, becomes  x = [] / set();  for t in it: if c: x.append(e) / x.add(e).  A generator expression bound to a
+    new local and consumed only as the iterable of such a comprehension is folded into it as an outer loop."""
+    ref = (reference or {}).get(modname) or {}
+    known_fns = set(ref.get("__functions__", []))
+    comps = ref.get("__comprehensions__", {})
+    if not known_fns:
+        return 0
+    count = 0
+    for q, fn in qualnames_fn(tree):
+        if q not in known_fns:
+            continue
+        have = list(comps.get(q, []))
+        ncomp = sum(1 for n in ast.walk(fn) if isinstance(n, (ast.ListComp, ast.SetComp, ast.GeneratorExp, ast.DictComp)))
+        if ncomp <= len(have):
+            continue                # nothing the reference does not already have
+        names = {n.id for n in ast.walk(fn) if isinstance(n, ast.Name) and isinstance(n.ctx, ast.Store)}
+
+        def is_new(node):
+            sig = _comp_signature(node, names)
+            if sig in have:
+                have.remove(sig)
+                return False
+            return True
+
+        def convert_block(stmts):
+            nonlocal count
+            out = []
+            gens = {}          # local -> generator expression (new, single use)
+            for st in stmts:
+                for fld in ("body", "orelse", "finalbody"):
+                    blk = getattr(st, fld, None)
+                    if isinstance(blk, list) and blk and isinstance(blk[0], ast.stmt) and not isinstance(st, _SCOPES):
+                        setattr(st, fld, convert_block(blk))
+                for h_ in getattr(st, "handlers", []) or []:
+                    h_.body = convert_block(h_.body)
+                if isinstance(st, ast.Assign) and len(st.targets) == 1 and isinstance(st.targets[0], ast.Name):
+                    v = st.value
+                    if isinstance(v, ast.GeneratorExp) and is_new(v):
+                        uses = [n for n in ast.walk(fn) if isinstance(n, ast.Name) and n.id == st.targets[0].id and isinstance(n.ctx, ast.Load)]
+                        if len(uses) == 1:
+                            gens[st.targets[0].id] = (v, st)
+                            continue
+                    if isinstance(v, (ast.ListComp, ast.SetComp)) and is_new(v):
+                        tgt = st.targets[0].id
+                        init = ast.List(elts=[], ctx=ast.Load()) if isinstance(v, ast.ListComp) else ast.Call(func=ast.Name(id="set", ctx=ast.Load()), args=[], keywords=[])
+                        meth = "append" if isinstance(v, ast.ListComp) else "add"
+                        generators = list(v.generators)
+                        elt = v.elt
+                        pre_bind = []
+                        # fold a new single-use generator local used as the (first) iterable
+                        g0 = generators[0]
+                        if isinstance(g0.iter, ast.Name) and g0.iter.id in gens:
+                            gexp, gst = gens.pop(g0.iter.id)
+                            inner_target = g0.target
+                            generators = list(gexp.generators) + [ast.comprehension(target=inner_target, iter=None, ifs=g0.ifs, is_async=0)] + generators[1:]
+                            pre_bind = [(len(gexp.generators), gexp.elt)]
+                        body = [ast.Expr(value=ast.Call(func=ast.Attribute(value=ast.Name(id=tgt, ctx=ast.Load()), attr=meth, ctx=ast.Load()), args=[elt], keywords=[]))]
+                        for gi in range(len(generators) - 1, -1, -1):
+                            g = generators[gi]
+                            for cnd in reversed(g.ifs):
+                                body = [ast.If(test=cnd, body=body, orelse=[])]
+                            if g.iter is None:
+                                # the element of the folded generator is bound to the inner target
+                                body = [ast.Assign(targets=[g.target], value=pre_bind[0][1])] + body
+                            else:
+                                body = [ast.For(target=g.target, iter=g.iter, body=body, orelse=[], type_comment=None)]
+                        new = [ast.Assign(targets=[ast.Name(id=tgt, ctx=ast.Store())], value=init)] + body
+                        for x in new:
+                            ast.fix_missing_locations(x)
+                        _relocate(new, getattr(st, "lineno", 0), 0)
+                        out.extend(new)
+                        count += 1
+                        continue
+                out.append(st)
+            # generator locals that were not folded are put back where they were (order is not critical for a lazy object)
+            if gens:
+                keep = [g[1] for g in gens.values()]
+                out = keep + out
+            return out
+        fn.body = convert_block(fn.body)
     return count
